@@ -171,6 +171,33 @@ func VerifH_C10_rowside() {
 	present2, err := r.Tree.Root.Get(vCtx, NewKey(int64(1)), &cv2)
 	symAssert(err == nil, "fresh-get-ok")
 	symAssert(present2 == present, "fresh-connection-agrees")
+	// removed means reclaimed: nothing of the entry is left in the tree, not
+	// even a tombstone (which would occupy the table for good and outvote
+	// later inserts of the key)
+	rc, err := w.Tree.Root.Cursor(vCtx)
+	symAssert(err == nil, "raw-cursor-ok")
+	symAssert(rc.Min(vCtx) == nil, "raw-cursor-ok")
+	raw := 0
+	for {
+		_, v, ok := rc.Get()
+		if !ok {
+			break
+		}
+		symAssert(!v.Tombstoned(), "vacuum-leaves-no-tombstone-behind")
+		raw++
+		symAssert(rc.Forward(vCtx) == nil, "raw-cursor-ok")
+	}
+	if gone {
+		symAssert(raw == 1, "removed-entry-is-reclaimed")
+		// and the key is as good as never used: an insert with any write time is visible
+		tre := symInt64("reinsert")
+		symAssume(vTimeOK(tre))
+		symAssert(vIns(w, tre, int64(1), int64(8), nil) == nil, "reinsert-ok")
+		vis, err := vHas(w, int64(1))
+		symAssert(err == nil && vis, "reclaimed-key-can-be-inserted-again")
+	} else {
+		symAssert(raw == 2, "kept-entry-is-still-stored")
+	}
 	symReach("end")
 }
 
